@@ -223,3 +223,9 @@ TEXT["C05"]["text"] += (" Rejected insertions (a value of an unsupported Go type
 TEXT["C12"]["text"] += " Rejected insertions are steps of the heap-level programs: nothing may change when parseVal panics (D7, repaired by fix: e647c0d)."
 for _p in ("C01", "C02", "C04", "C16"):
     TEXT[_p]["note"] += " Float-text contract: F1, F2, F3, F5 (F4 'not an integer literal' is derived: FloatText.ser_float_not_int)."
+TEXT["C14"]["text"] += (" C14_heap_object_map_keys/_identity/_distinct_keys: the Map variants of objects store the result for every selected field - and only for those - under the "
+                        "same key; C14_heap_list_map_pairs: Map with a pair-building callback allocates exactly one two-element cell per selected element holding its tag and the "
+                        "element (exact equation for heap and result); C14_heap_foreach_log: every element once, in order, with its index.")
+for _p in ("C05", "C06"):
+    TEXT[_p]["text"] += (" %s_typed_programs_never_ill_typed: a program that passes the decidable step-wise type check and the storing discipline never takes the model's "
+                         "'ill-typed' escape (OBad), so every outcome the runner compares is a real prediction." % _p)
